@@ -212,6 +212,10 @@ fn parse_core(text: &str, base: u64, len_plus: bool, len_nodigits: bool) -> Resu
             None => continue,
         };
         let part = if len_plus { part.strip_prefix('+').unwrap_or(part) } else { part };
+        if !part.is_empty() && part.bytes().all(|b| b == b'_') {
+            // "_.5", "1._": the docs never mention such a part (the integer parser rejects "_")
+            either = Some("integral or fractional part made of underscores only");
+        }
         for ch in part.chars() {
             if ch == '_' {
                 continue;
@@ -228,7 +232,7 @@ fn parse_core(text: &str, base: u64, len_plus: bool, len_nodigits: bool) -> Resu
         }
     }
     if digits.is_empty() {
-        let tolerated = len_nodigits && (mant.contains('_') || (hexform && mant.contains('.')));
+        let tolerated = len_nodigits && hexform && mant == ".";
         if !tolerated {
             return Err("no digits");
         }
@@ -608,7 +612,8 @@ fn mutated_case(base: u64) -> impl Strategy<Value = ParseCase> {
 }
 
 fn arbitrary_case() -> impl Strategy<Value = ParseCase> {
-    let ch = prop_oneof![6 => any::<u16>().prop_map(|s| pick(ALPHABET, s)), 1 => any::<char>()];
+    // the first 32 entries of ALPHABET are ASCII
+    let ch = prop_oneof![8 => any::<u16>().prop_map(|s| pick(&ALPHABET[..28], s)), 2 => any::<u16>().prop_map(|s| pick(ALPHABET, s)), 1 => any::<char>()];
     let fixed: Vec<&'static str> = vec![
         "", "+", "-", ".", "_", "+_", "-_", "0x", "0x.", "0x_", "e", "@", "e5", "1e", "1e+", "1.+5", "1._5", "-+1", "+-1", "--1", "1.-5", "._", "_.", "_._", "1__2", "1..2", "1.2.3", "0x1.8p3", "0X1.8P3",
         "0x1.8@3", "1p3", "inf", "-inf", "NaN", "nan", " 1", "1 ", "1e 5", "1e5 ", "١", "1.5é", "é1.5", "1é.5", "1.5e5é", "1.5eé5", "0xé", "0é", "0", "00", "-0", "+.0", "1_e5", "1e_5", "1e5_", "1@+5", "1@-5",
@@ -1060,7 +1065,7 @@ fn print_precision<R: ModeTag, const B: Word>(c: &PpCase, _ctx: &Ctx) -> Out {
 /// base 2 LowerHex/UpperHex with a precision: N hex digits after the point = 4N+4 significant bits
 fn print_precision_hex<R: ModeTag>(c: &PpCase, _ctx: &Ctx) -> Out {
     let mut out = Out::new();
-    let n = (c.n % 14) as usize;
+    let n = (c.n % 6) as usize;
     let sig = c.x.sig.big();
     let (ws, we) = norm_val(&sig, c.x.exp as i128, 2);
     let prec = digits(sig.magnitude(), 2).max(1) as usize;
@@ -1357,10 +1362,6 @@ fn judge_conv<R2: Round, const NB: Word>(out: &mut Out, ctx: &Ctx, what: &str, s
                     ctx.known_or_fail(out, "C08/convert-base-to-root-base-not-rounded", || {
                         format!("{what} of {} (target precision {target}): returned Exact with {} digits", src.show(), digits(&res.sig, nb))
                     });
-                } else if info.rel == Rel::Unrelated && large && std::env::var("C08_STATS").is_ok() {
-                    let ec = err_class(&truth_sci, &res.val, target);
-                    let bits = (target as f64 * (nb as f64).log2()) as u64;
-                    eprintln!("STAT bits={} pclass={} err={} clauses={} srcexp={} allowed={:?} b={} nb={}", bits, target, ec, broken.iter().map(|b| b.clause).collect::<Vec<_>>().join("+"), info.src_exp, large_exp_allowed(info.src_exp, info.b, nb, target), info.b, nb);
                 } else if info.rel == Rel::Unrelated && large && large_exp_allowed(info.src_exp, info.b, nb, target).map_or(true, |k| err_class(&truth_sci, &res.val, target) <= k) {
                     ctx.known_or_fail(out, "C08/convert-base-large-exponent-unfaithful", || {
                         let all: Vec<&str> = broken.iter().map(|b| b.clause).collect();
@@ -1390,7 +1391,7 @@ fn judge_conv<R2: Round, const NB: Word>(out: &mut Out, ctx: &Ctx, what: &str, s
 /// ulps of the target precision) belongs to the finding; None when the model error reaches the
 /// size of the whole significand (the result is then arbitrary).  Larger errors are reported.
 fn large_exp_allowed(src_exp: i64, b: u64, nb: u64, p: u64) -> Option<u64> {
-    let a = BigUint::from(src_exp.unsigned_abs() * (64 - b.leading_zeros() as u64) * nb);
+    let a = BigUint::from(4u64 * src_exp.unsigned_abs() * (64 - b.leading_zeros() as u64) * nb);
     let np = bpow(nb, p);
     let bound: BigUint = BigUint::from(2u8) + (&a + &np - BigUint::one()) / &np;
     if bound >= bpow(nb, p.saturating_sub(1)).max(BigUint::from(2u8) * BigUint::from(nb)) {
@@ -1641,7 +1642,11 @@ fn from_ieee(c: &IeeeCase, _ctx: &Ctx) -> Out {
 }
 
 fn main() {
-    let mut ck = Check::new("C08", "todo");
+    let mut ck = Check::new(
+        "C08",
+        "strings built from the rustdoc grammar of FBig::from_str_native per base {2,3,8,10,16,36} (sign, aaa / aaa. / aaa.bbb / .bbb, underscores, upper/lower digits, leading/trailing zeros, scale markers @ e/E b/B o/O h/H, 0x..p hex floats, scales to ±4.6e18) with the value and digit count they were built for, cross-checked by an independent reference parser; single-edit mutations (insert/delete/replace/duplicate/swap/truncate, signs at structural positions, multi-byte characters) and arbitrary Unicode judged by that reference parser (Err, or the value of the grammar; never a panic); scales at the ends of the isize range; finite values (<= p digits of patterns 1 0..0, B-1 repeated, half, random, trailing zeros; |exponent| <= 10^4, radix point inside / outside the digits) printed with Display, LowerExp, UpperExp, Binary, Octal, LowerHex, UpperHex under 12 flag combinations and widths, read back by the reference parser and by FBig::from_str; `.N` (N < 40) for 6 modes against round_rational(value·B^N) with digits straddling position N (exact ties, tie±1, 0…01, B^d−1), scientific `.N` against N+1 significant digits (4N+4 bits for hex floats); with_precision, with_base, with_base_and_precision, to_decimal, to_binary for the 12 ordered pairs of {2,3,10,16} × 6 modes, source precisions 0(unlimited),1,2,3,4-60, exponents in −400..400 across the ±38 branch threshold of convert_base, explicit target precisions 0, 1, 2, documented±1, random, judged by the six-clause faithful-rounding contract in exact rational arithmetic in the target base, and the documented precision formula max k: NewB^k <= B^p for p <= 4000; TryFrom<f32/f64> for every IEEE class against a bit-level decode. Non-trivial: text with a radix point or scale marker / malformed non-empty text / rounding or padding happened / inexact conversion / finite non-zero IEEE value; distinct by case digest.",
+    );
+    ck.assume("the reference float grammar in c08.rs (written from the rustdoc of FBig::from_str_native; where the rustdoc is silent — 0X prefix, '@' after a 0x mantissa, a part made of underscores only — both Err and the natural value are accepted)");
     macro_rules! parse_subs {
         ($($b:literal),*) => {$(
             ck.sub(concat!("parse_valid_b", $b), (6_000, 120_000), || valid_case($b), parse_oracle::<$b>);
